@@ -74,17 +74,23 @@ Definition fs_samefile (s : fs) (p q : path) : bool :=
   end.
 
 (* ------------------------------------------------------------------ single colour tiles *)
-(* payloads are the pixel values of the tile (one number 65536 r + 256 g + b per pixel);
-   is_single_color_image: the colour if there is exactly one *)
+(* A payload is the decoded tile: the number of channels of the image mode (3 = RGB, 4 = RGBA) followed by the
+   pixel values (65536 r + 256 g + b, resp. 2^24 r + 65536 g + 256 b + a).
+   is_single_color_image returns the colour TUPLE if there is exactly one colour: 3 or 4 components.  A colour is
+   kept as one number: the RGB value, or 2^32 + the RGBA value. *)
+Definition RGBA_TAG : Z := 4294967296.
 Definition mono (b : bytes) : option Z :=
   match b with
-  | [] => None
-  | c :: r => if forallb (Z.eqb c) r then Some c else None
+  | ch :: c :: r => if forallb (Z.eqb c) r then Some (if ch =? 4 then RGBA_TAG + c else c) else None
+  | _ => None
   end.
 
-(* ''.join('%02x' % v for v in color) for the (r, g, b) tuple of the colour *)
-Definition color_name (c : Z) : text :=
-  render_int pad_hex 2 (c / 65536) ++ render_int pad_hex 2 ((c / 256) mod 256) ++ render_int pad_hex 2 (c mod 256).
+(* ''.join('%02x' % v for v in color): two hex digits for every component of the tuple *)
+Definition h2 (v : Z) : text := render_int pad_hex 2 v.
+Definition color_name (k : Z) : text :=
+  if k <? RGBA_TAG then h2 (k / 65536) ++ h2 ((k / 256) mod 256) ++ h2 (k mod 256)
+  else let c := k - RGBA_TAG in
+       h2 (c / 16777216) ++ h2 ((c / 65536) mod 256) ++ h2 ((c / 256) mod 256) ++ h2 (c mod 256).
 
 Definition sc_dir : text := s2t "single_color_tiles".
 (* _single_color_tile_location *)
